@@ -48,6 +48,8 @@ def _solve_kwargs(cfg, theta, a, s, sp, so, w, ost, n_iter):
         kw["obs_data"] = OObsGen(so)
     if cfg["ost"]:
         kw["opt_state"] = ost
+    if cfg.get("rar"):
+        kw["_rar_contract"] = True          # refinement replaced by its contract (see solve_util.rar_contract)
     if cfg.get("verbose"):
         # printing is an effect only: every value of the loop is the same with and without it
         kw.update(verbose=True, print_loss_every=2)
@@ -71,7 +73,7 @@ BASE_INPUTS = lambda so_: [Inp("theta", (P_,)), Inp("a", ()), Inp("s", (KS,)), I
 
 def cfg_tag(cfg, n_iter):
     return (f"[n_iter={n_iter},opt={cfg['opt']},param_gen={int(cfg['param'])},obs_gen={int(cfg['obs'])},tracked={cfg['tracked']},"
-            f"opt_state_given={int(cfg['ost'])}{',verbose' if cfg.get('verbose') else ''}]")
+            f"opt_state_given={int(cfg['ost'])}{',verbose' if cfg.get('verbose') else ''}{',refinement_by_contract' if cfg.get('rar') else ''}]")
 
 
 def zeros(shape):
@@ -168,6 +170,10 @@ def expected_step(cfg, n_iter, i, so_, cr, wrong=False, validation=None):
     lc1 = LossContainer({f"t{j}": setat(lc.stored_loss_terms[f"t{j}"], y[1 + j]) for j in range(NT)},
                         setat(lc.train_loss_values, y[0]))
     data1 = OGen(arr(lambda j: call("Gg", pts(s), KS)[j[0]], (KS,)))
+    if cfg.get("rar"):
+        # the refinement step is handed the batch-advanced generator and the *current* (just updated) parameters
+        zr = pts(data1.state) + pts(th1) + [a1[()], c(i)]
+        data1 = OGen(arr(lambda j: call("Rar", zr, KS)[j[0]], (KS,)))
     if validation is None:
         extra1 = OptimizationExtraContainer(0, p1(), False)      # curr_seq: solve's (legacy) constant 0
         val1, crit1 = None, None
@@ -195,7 +201,8 @@ def step(cfg, n_iter, i):
             # leaf 0 is the iteration counter: concrete (every value of [0, n_iter) gets its own obligation)
             return [jnp.asarray(i, dtype=avals[0][1])] + list(leaves[1:])
         def fn(*leaves):
-            return body(jax.tree_util.tree_unflatten(treedef, fix(leaves)))
+            with rar_contract(bool(cfg.get("rar"))):
+                return body(jax.tree_util.tree_unflatten(treedef, fix(leaves)))
         def spec(*leaves, wrong=False):
             cr = jax.tree_util.tree_unflatten(treedef, list(leaves))
             return expected_step(cfg, n_iter, i, so_, cr, wrong=wrong)
@@ -397,6 +404,10 @@ def configs(tier):
     return cs
 
 
+def rar_config():
+    return dict(opt="opaque", param=False, obs=False, tracked="a", ost=False, rar=True)
+
+
 def obligations(tier):
     obs = []
     n_iters = (3,) if tier == "quick" else (1, 2, 3, 5)
@@ -410,6 +421,8 @@ def obligations(tier):
             obs.append(guard(configs(tier)[0], n_iter, i))
     for i in range(n_iters[0] + 1):
         obs.append(guard(configs(tier)[-1], n_iters[0], i))          # the same guard when it also prints why it stops
+    for i in range(n_iters[0]):
+        obs.append(step(rar_config(), n_iters[0], i))                # with a refining generator (refinement by contract)
     for kind in ("ODE", "statio", "nonstatio"):
         obs.append(batch_size_check(kind))
     # with a validation module attached (uninterpreted; its schedule is C19): the step is the same textbook step and
